@@ -137,11 +137,13 @@ Sexa2(g, D, mi) ==
     [txt  |-> SexaSign[g].pre \o ToString(D) \o ":" \o ToString(SexaMin[mi]) \o SexaSign[g].suf,
      n128 |-> SexaSign[g].s * (128 * D + 32 * (mi - 1))]
 
-\* A zero degree field with a leading minus sign ("-0:30") is left out: whether
-\* a zero can carry the sign is a matter of C19, not of kp.
+\* A zero degree field with a leading minus sign ("-0:30") denotes the negative angle: the sign belongs to
+\* the whole notation (Angular.tla, C19: "-0 deg 30 min" is sg = -1, d = 0); kp must read it that way too.
+\* (At first left out as "a matter of C19"; seeded change C20-3 showed that kp's reading of such a line then
+\* went unchecked here.)
 SexaTable ==
-       {Sexa3(x[1], x[2], x[3], x[4]) : x \in {y \in (1..6) \X SexaDeg \X (1..4) \X (1..3) : ~(y[1] = 6 /\ y[2] = 0)}}
-  \cup {Sexa2(x[1], x[2], x[3]) : x \in {y \in (1..6) \X SexaDeg \X (1..4) : ~(y[1] = 6 /\ y[2] = 0)}}
+       {Sexa3(x[1], x[2], x[3], x[4]) : x \in (1..6) \X SexaDeg \X (1..4) \X (1..3)}
+  \cup {Sexa2(x[1], x[2], x[3]) : x \in (1..6) \X SexaDeg \X (1..4)}
 
 ----------------------------------------------------------------------------
 (***************************************************************************)
